@@ -158,7 +158,7 @@ def from_array(
     if check_ftype and not fd.isvalid(data):
         raise ValueError(f'The flow direction data with type "{ftype}" is invalid.')
     if mask is not None:
-        if mask.shape != data.shape:
+        if mask.shape != shape and mask.shape != np.shape(data):
             raise ValueError('"mask" shape does not match with data shape')
         data = np.where(mask != 0, data, fd._mv)
 
